@@ -61,9 +61,53 @@ def cascade_engine(chk, quick):
     chk.witness("W_NeverContested", vlib.expect_violation(rw, "W_NeverContested"))
 
 
+def free_world(chk, quick):
+    """R2: random crossing look-alike objects through the real VisualSort / BatchVisualSort; every call is re-derived by
+    TLC from the logged galleries, gates and measured positional weights (spec/tracker/VisualTrace.tla)."""
+    import json
+    from checks import r2_common as r2
+    # (kind, visual metric, positional metric, min votes, minimal track length, max observations, own-area share, minimal area)
+    combos = [("visual", "euclid", "iou", 1, 2, 3, 0.0, 0), ("batchvisual", "cosine", "maha", 2, 1, 2, 0.6, 2600),
+              ("visual", "cosine", "iou", 1, 1, 5, 0.0, 2600), ("batchvisual", "euclid", "iou", 2, 3, 4, 0.0, 0),
+              ("visual", "euclid", "maha", 1, 2, 2, 0.5, 0), ("visual", "euclid", "iou", 3, 3, 5, 0.0, 0)]
+    n = len(combos) if quick else 120
+    traces, predicts = [], 0
+    for i in range(n):
+        kind, vk, metric, mv, mtl, mo, own, ma = combos[i % len(combos)]
+        t = r2.record_visual(chk, f"r2v-{i}", kind, chk.seed * 1000 + 500 + i, vis_kind=vk, min_votes=mv, min_track_len=mtl, max_obs=mo, own=own,
+                             min_area=ma, metric=metric, shards=1 + i % 3, objects=4 + i % 3, spread=(70, 90, 120)[i % 3],
+                             steps=150 if quick else 300, extra=(["--jump", "1"] if i % 4 == 3 else []))
+        traces.append(t)
+        predicts += sum(1 for l in open(t) if '"ev":"predict"' in l)
+    tot = r2.validate_visual(chk, traces, "C12")
+    chk.cov["evaluations"] += predicts
+    chk.cov["distinct_nontrivial"] += tot[2]
+    chk.cov["free_world_calls"] = {"predict_calls": predicts, "checked_structurally_only": tot[0], "with_appearance_claims": tot[1],
+                                   "with_a_claim_that_lost": tot[2], "positional_fallback_next_to_appearance": tot[3]}
+    chk.witness("free_world_traces_contain_lost_claims", tot[2] > 0)
+    chk.witness("free_world_traces_contain_fallback_next_to_appearance", tot[3] > 0)
+    # binding demonstration: a positional record relabelled "visual" in a call that is checked in full -> rejected
+    ev = [json.loads(l) for l in open(traces[0])]
+    rejected = False
+    tried = 0
+    for k, e in enumerate(ev):
+        if e["ev"] == "predict" and k > 30 and 0 in e["vt"] and 1 in e["vt"] and tried < 6:
+            tried += 1
+            bad = json.loads(json.dumps(ev[:k + 1]))
+            bad[k]["vt"][bad[k]["vt"].index(0)] = 1
+            bt = chk.workdir / "r2v-relabelled.ndjson"
+            bt.write_text("".join(json.dumps(x) + "\n" for x in bad))
+            ok, _, _ = vlib.validate_trace(r2.T / "VisualTrace.tla", r2.T / "vtrace.cfg", bt, "vt-relabelled", chk.workdir)
+            if not ok:
+                rejected = True
+                break
+    chk.witness("relabelled_voting_type_is_rejected", rejected)
+
+
 def run(chk):
     quick = chk.tier == "quick"
     cascade_engine(chk, quick)
+    free_world(chk, quick)
     for name, kw, sim in plans(quick):
         r, c = tc.generate_visual(chk, name, simulate=sim, **kw)
         kinds = ("visual", "batchvisual") if (not quick or name in ("v-sim7", "v-d3")) else ("visual",)
@@ -75,6 +119,9 @@ def run(chk):
 
 
 def replay(payload):
+    if payload.get("engine") == "r2v-trace":
+        from checks import r2_common as r2
+        return r2.replay_visual_trace("C12", payload)
     if payload.get("engine") == "visvote":
         rep = vlib.replay_single(payload["vh"], payload["case"], vlib.WORK / "C12")
         if rep["mismatches"]:
